@@ -145,7 +145,8 @@ pub fn run(tier: Tier) -> i32 {
     let mut plan = standard_plan(tier, 2);
     if tier == Tier::Quick {
         // FEN text depends on rights, side and en-passant state, not on 3-man geometry: keep the
-        // pawn sets (en-passant-free but both colours) and drop the children of the others
+        // pawn sets without children and drop the other 3-man sets from the quick tier
+        plan.families.retain(|(f, _)| !f.name().starts_with("all placements of") || f.name().contains('P'));
         for (f, cd) in plan.families.iter_mut() {
             if f.name().starts_with("all placements of") {
                 *cd = 0;
